@@ -28,7 +28,7 @@ MANIFEST = {
                  'and utils.fft_autocorrelation (length obligations); z3/cvc5; native replay; tetrahedral clusters in random cells as stand-in',
 }
 UNITS = ['unit_directions', 'unit_normalize', 'unit_symmetrize', 'unit_transform', 'unit_autocorr']
-BOUNDED = ['bounded_orientations']
+BOUNDED = ['bounded_orientations', 'bounded_purity']
 META = {'clauses': {'C18.wrap': 'P', 'C18.match': 'B', 'C18.norm': 'P', 'C18.sym': 'P + A (orthogonal point-group matrices)', 'C18.lin': 'P', 'C18.sph': 'B',
                     'C18.ac.pad': 'P (sufficient padding) / known finding (inverse length)', 'C18.ac.norm': 'known finding region'},
         'not_decided': ['numerical FFT error', 'spherical-coordinate inverse (pure trigonometry): bounded numeric check only']}
@@ -380,3 +380,10 @@ def bounded_orientations(tier, seed):
         if r['reproduced']:
             st.violation('orientations', r['detail'], 'verif.props.c18:replay_orient', inp)
     return st.result()
+
+
+# generic purity stand-in (arguments unchanged, second call equal, fresh call equal) over this property's API calls
+from verif.native.purity import make_bounded as _make_purity  # noqa: E402
+from verif.props.purity_reg import REG as _PURITY_REG  # noqa: E402
+PURITY = _PURITY_REG['C18']
+bounded_purity = _make_purity('C18', PURITY)
